@@ -492,7 +492,7 @@ func (st *wstate) checkDisk(i int, l *scen.Lifetime, lf *model.Life, after world
 			delete(d.Solo, path)
 			continue
 		}
-		if strings.HasSuffix(path, ".json") && s.K > 0 && isSJSON(lf, path) && !json.Valid(b) {
+		if s.API == scen.APISJSON && !json.Valid(b) {
 			if st.hit(viol("standalone-json-invalid", i, -1, path, callProps("C19"), "standalone JSON snapshot %s is not valid JSON: %q", path, clip(string(b)))) {
 				return true
 			}
